@@ -29,6 +29,7 @@ import CookModel.Lemmas.RoundtripModes
 import CookModel.Lemmas.RoundtripModes2
 import CookModel.Lemmas.RoundtripModes3
 import CookModel.Lemmas.RoundtripDocModes
+import CookModel.Lemmas.RoundtripDocTight
 /-
   C01  Printing a recipe as Cooklang and parsing it returns that recipe.
 
@@ -2203,6 +2204,139 @@ example : yOKB (α := Rat) C01_allModesEnv .all .new {} [] ⟨none, []⟩ 1
     yOKB (α := Rat) C01_allModesEnv .all .new {} [] ⟨none, []⟩ 1
     [.duplicate .reference, .step [.ingr none (absIngr { name := [tk .word "salt".toList] })],
      .step [.ingr none (absIngr { mods := [.and], name := [tk .word "salt".toList] })]] = false := by decide
+
+
+-- ===== w6c01rest =====
+
+/-! ### tight separators: a `>>` / `=` line directly followed by the next block -/
+
+/-- The block splitter with TIGHT separators (`docOKT`): as `C01_blocks_split`, but between two blocks ONE newline
+    token is enough when the first block is a single `>>` / `=` line (`pull_line`'s single-line rule: such a
+    line is a block of its own, whatever follows) or when the second one is (the continuation loop of
+    `next_block` stops before a line that starts with `>>` or `=`).  Only between two multi-line blocks a blank
+    line is still required (there a single newline is a soft break inside one step). -/
+theorem C01_blocks_split_tight (pre : List Tok) (ds : List (List Tok × List Tok)) (hpre : blankLinesOK pre = true)
+    (h : docOKT ds = true) :
+    allBlocks ((pre ++ docToks ds).length + 1) (pre ++ docToks ds) = ds.map (·.1) :=
+  rtdt_allBlocks_doc ds h pre (rtd_blankLinesOK_facts pre hpre)
+
+/-- the separators of the earlier theorems (a blank line after every block, `sepsOK`) are a special case of the
+    tight ones (`sepsOKT` over `docSeps`: each block's `isLine` flag — `>>` line or section line — with what
+    follows the block) -/
+theorem C01_separators_tight_general (doc : List (DocItem × List Tok)) (h : sepsOK (doc.map (·.2)) = true) :
+    sepsOKT (docSeps doc) = true :=
+  rtdt_sepsOK_sepsOKT doc h
+
+/-- `C01_input_blocks` with tight separators: the same hypotheses and the same conclusion (one block per item,
+    the events of the items concatenated, no error, no warning, no panic), the condition on the separators
+    weakened from `sepsOK` to `sepsOKT (docSeps doc)`: after a `>>` line or a section line, and before one, a
+    single newline suffices; a blank line (or more, with blanks and comments) is allowed everywhere and required
+    only between two multi-line blocks (step / paragraph followed by step / paragraph). -/
+theorem C01_input_blocks_tight {α : Type} [Arith α] (cs : CharSpec) (ext : Ext) (pre : List Tok)
+    (doc : List (DocItem × List Tok)) (hpre : blankLinesOK pre = true)
+    (hok : ∀ d ∈ doc, d.1.ok cs ext = true) (hseps : sepsOKT (docSeps doc) = true)
+    (hw : WellSpelled cs (pre ++ docSpec doc))
+    (hfm : parseFrontmatter cs (render (pre ++ docSpec doc)) = none) :
+    ∃ (blocks : List (List Tok)) (evss : List (List (Ev α))) (arr : Array (Ev α)),
+      allBlocks ((lex cs (render (pre ++ docSpec doc))).length + 1) (lex cs (render (pre ++ docSpec doc))) = blocks ∧
+      All2 (fun b (d : DocItem × List Tok) => Spells b d.1.spell) blocks doc ∧
+      pullEvents (α := α) cs ext (render (pre ++ docSpec doc)) = (arr, none) ∧
+      arr.toList = evss.flatten ∧
+      All2 (fun (d : DocItem × List Tok) evs => DocItemEvs cs d.1 evs) doc evss :=
+  rtdt_pullEvents_doc cs ext pre doc hpre hok hseps hw hfm
+
+/-- `C01_recipe_doc` (documents of steps, sections, `>>` entries, paragraphs, plain definitions) with tight
+    separators: same conclusion. -/
+theorem C01_recipe_doc_tight {α : Type} [Arith α] (env : Env) (pre : List Tok) (doc : List (DocItem × List Tok))
+    (hpre : blankLinesOK pre = true) (hok : ∀ d ∈ doc, d.1.ok env.cs env.ext = true)
+    (hsimple : ∀ d ∈ doc, d.1.simple = true) (hplain : ∀ d ∈ doc, d.1.plain env)
+    (hext : ∀ d ∈ doc, d.1.extOK α env)
+    (hseps : sepsOKT (docSeps doc) = true) (hw : WellSpelled env.cs (pre ++ docSpec doc))
+    (hfm : parseFrontmatter env.cs (render (pre ++ docSpec doc)) = none) :
+    ∃ (c : Col α) (spans : List Span),
+      parseRecipe env (render (pre ++ docSpec doc)) = ⟨some c, c.diags, none⟩ ∧
+      c.sections = absDocSecs [] ⟨none, []⟩ 1 (doc.map (·.1)) ∧
+      c.ingredients.toList = ((absDocSegs (doc.map (·.1))).filterMap SegX.ingr?).map absIngr ∧
+      c.cookware.toList = ((absDocSegs (doc.map (·.1))).filterMap SegX.cw?).map absCw ∧
+      c.timers.toList = ((absDocSegs (doc.map (·.1))).filterMap SegX.timer?).map absTimer ∧
+      c.metaMap = absDocMeta [] (doc.map (·.1)) ∧
+      c.diags = deprecation spans ∧ spans.length = ((doc.map (·.1)).filter DocItem.isMeta).length ∧
+      c.inlineQ = #[] ∧ c.frontMatter = none :=
+  rtdt_parseRecipe_doc env pre doc hpre hok hsimple hplain hext hseps hw hfm
+
+/-- `C01_recipe_doc_refs` (documents with `&` references and intermediate references) with tight separators:
+    same conclusion. -/
+theorem C01_recipe_doc_refs_tight {α : Type} [Arith α] (env : Env) (pre : List Tok) (doc : List (DocItem × List Tok))
+    (hpre : blankLinesOK pre = true) (hok : ∀ d ∈ doc, d.1.ok env.cs env.ext = true)
+    (hlock : ∀ d ∈ doc, d.1.lockOK = true) (hplain : ∀ d ∈ doc, d.1.plain env)
+    (hext : ∀ d ∈ doc, d.1.extOK α env)
+    (hrefs : xOK (α := α) env {} [] ⟨none, []⟩ 1 (doc.map (fun d => d.1.x)))
+    (hseps : sepsOKT (docSeps doc) = true) (hw : WellSpelled env.cs (pre ++ docSpec doc))
+    (hfm : parseFrontmatter env.cs (render (pre ++ docSpec doc)) = none) :
+    ∃ (c : Col α) (spans : List Span),
+      parseRecipe env (render (pre ++ docSpec doc)) = ⟨some c, c.diags, none⟩ ∧
+      c.sections = (xRun (α := α) env {} [] ⟨none, []⟩ 1 [] (doc.map (fun d => d.1.x))).secs ∧
+      c.ingredients = (xRun (α := α) env {} [] ⟨none, []⟩ 1 [] (doc.map (fun d => d.1.x))).T.ing ∧
+      c.cookware = (xRun (α := α) env {} [] ⟨none, []⟩ 1 [] (doc.map (fun d => d.1.x))).T.cw ∧
+      c.timers = (xRun (α := α) env {} [] ⟨none, []⟩ 1 [] (doc.map (fun d => d.1.x))).T.tm ∧
+      c.metaMap = (xRun (α := α) env {} [] ⟨none, []⟩ 1 [] (doc.map (fun d => d.1.x))).metaMap ∧
+      c.diags = deprecation spans ∧ spans.length = ((doc.map (·.1)).filter DocItem.isMeta).length ∧
+      c.inlineQ = #[] ∧ c.frontMatter = none :=
+  rtdt_parseRecipe_doc_refs env pre doc hpre hok hlock hplain hext hrefs hseps hw hfm
+
+/-- `C01_recipe_doc_modes` (documents with mode switches) with tight separators: a switch line may be written
+    directly above and below its neighbours, as recipes usually do.  Same conclusion. -/
+theorem C01_recipe_doc_modes_tight {α : Type} [Arith α] (env : Env) (pre : List Tok) (doc : List (DocItem × List Tok))
+    (hpre : blankLinesOK pre = true) (hok : ∀ d ∈ doc, d.1.ok env.cs env.ext = true)
+    (hside : docSideOK α env .all (doc.map (·.1)))
+    (hrefs : yOKB (α := α) env .all .new {} [] ⟨none, []⟩ 1 (doc.map (fun d => d.1.y env)) = true)
+    (hseps : sepsOKT (docSeps doc) = true) (hw : WellSpelled env.cs (pre ++ docSpec doc))
+    (hfm : parseFrontmatter env.cs (render (pre ++ docSpec doc)) = none) :
+    ∃ (c : Col α) (spans : List Span),
+      parseRecipe env (render (pre ++ docSpec doc)) = ⟨some c, c.diags, none⟩ ∧
+      c.sections = (yRun (α := α) env .all .new {} [] ⟨none, []⟩ 1 [] (doc.map (fun d => d.1.y env))).secs ∧
+      c.ingredients = (yRun (α := α) env .all .new {} [] ⟨none, []⟩ 1 [] (doc.map (fun d => d.1.y env))).T.ing ∧
+      c.cookware = (yRun (α := α) env .all .new {} [] ⟨none, []⟩ 1 [] (doc.map (fun d => d.1.y env))).T.cw ∧
+      c.timers = (yRun (α := α) env .all .new {} [] ⟨none, []⟩ 1 [] (doc.map (fun d => d.1.y env))).T.tm ∧
+      c.metaMap = (yRun (α := α) env .all .new {} [] ⟨none, []⟩ 1 [] (doc.map (fun d => d.1.y env))).metaMap ∧
+      c.diags = deprecation spans ∧
+      spans.length = ((doc.map (·.1)).filter (DocItem.isEntry α env)).length ∧
+      c.inlineQ = #[] ∧ c.frontMatter = none :=
+  rtdt_parseRecipe_doc_modes env pre doc hpre hok hside hrefs hseps hw hfm
+
+/-! example: the document of `C01_exModesDoc` written tight — every `>>` line directly above / below its
+    neighbours; the only blank line left is the one between the two steps `Mix …` / `Add …`. -/
+def C01_exModesDocTight : List (DocItem × List Tok) :=
+  List.zipWith (fun d s => (d.1, s)) C01_exModesDoc
+    [[C01_nl], [C01_nl, C01_nl], [C01_nl], [C01_nl], [C01_nl], [C01_nl], [C01_nl], [C01_nl], [C01_nl], [C01_nl],
+     [C01_nl], [C01_nl]]
+
+set_option maxRecDepth 8000 in
+example : String.ofList (render (docSpec C01_exModesDocTight)) =
+    ">> [duplicate]: ref\nMix @flour{200%g} in #bowl{}.\n\nAdd @flour{50%g} to #bowl{}.\n>> [mode]: text\nRest well.\n>> [duplicate]: default\n>> [define]: ingredients\n@salt{}\n>> [mode]: steps\nSeason with @salt{} and @flour{}.\n>> [mode]: all\n>> source: me\n" := by
+  decide
+example : C01_exModesDocTight.map (·.1) = C01_exModesDoc.map (·.1) := rfl
+example : (∀ d ∈ C01_exModesDocTight, d.1.ok C01_allModesEnv.cs C01_allModesEnv.ext = true) ∧
+    sepsOKT (docSeps C01_exModesDocTight) = true ∧ sepsOK (C01_exModesDocTight.map (·.2)) = false := by decide
+set_option maxRecDepth 8000 in
+example : WellSpelled toyCharSpec (docSpec C01_exModesDocTight) := by decide
+set_option maxRecDepth 8000 in
+example : (parseFrontmatter toyCharSpec (render (docSpec C01_exModesDocTight))).isNone = true := by decide
+example : docSideOK Rat C01_allModesEnv .all (C01_exModesDocTight.map (·.1)) :=
+  C01_mode_side_conditions_check _ (C01_ext_conditions_vacuous _ (by decide) (by decide)) _ _ (by decide)
+example : yOKB (α := Rat) C01_allModesEnv .all .new {} [] ⟨none, []⟩ 1
+    (C01_exModesDocTight.map (fun d => d.1.y C01_allModesEnv)) = true := by decide
+/-- the condition is needed: two steps with a single newline between them are ONE step (soft break); a blank
+    line is required there and only there -/
+example : sepsOKT [(false, [C01_nl]), (false, [])] = false ∧ sepsOKT [(true, [C01_nl]), (false, [])] = true ∧
+    sepsOKT [(false, [C01_nl]), (true, [])] = true ∧ sepsOKT [(false, [C01_nl, C01_nl]), (false, [])] = true := by decide
+/-- on tokens: `>> a: b` / newline / `x` are two blocks; `x` / newline / `= s` are two blocks -/
+example : allBlocks 10 [⟨.metaStart, ['>', '>'], 0⟩, ⟨.word, ['a'], 2⟩, ⟨.colon, [':'], 3⟩, ⟨.word, ['b'], 4⟩,
+      ⟨.newline, ['\n'], 5⟩, ⟨.word, ['x'], 6⟩] =
+    [[⟨.metaStart, ['>', '>'], 0⟩, ⟨.word, ['a'], 2⟩, ⟨.colon, [':'], 3⟩, ⟨.word, ['b'], 4⟩], [⟨.word, ['x'], 6⟩]] := by
+  decide
+example : allBlocks 10 [⟨.word, ['x'], 0⟩, ⟨.newline, ['\n'], 1⟩, ⟨.eq, ['='], 2⟩, ⟨.word, ['s'], 3⟩] =
+    [[⟨.word, ['x'], 0⟩], [⟨.eq, ['='], 2⟩, ⟨.word, ['s'], 3⟩]] := by decide
 
 
 end Cook
